@@ -72,13 +72,13 @@ def main(tier, seed, replay=None):
     build_scratch()
     rng = random.Random(seed)
     themes = gen.run_themes(THEMES, tier, rep, jobs=9)
-    r, deep = gen.simulate(2000 if tier == 'quick' else 40000,
+    r, deep = gen.simulate(2000 if tier == 'quick' else 10000,
                            maxtok=30 if tier == 'quick' else 40, maxnl=2,
                            seed=seed + 8, workers=8)
     rep.add_tlc(r)
     triples = set()
     keep = list(deep)
-    mod = 14 if tier == 'quick' else 2
+    mod = 14 if tier == 'quick' else 5
     for n in THEMES:
         for s in themes[n]:
             new = False
